@@ -283,3 +283,57 @@ func firstDiff(a, b string) string {
 	}
 	return fmt.Sprintf("impl …%s  model …%s", a[lo:min(len(a), i+40)], b[lo:min(len(b), i+40)])
 }
+
+
+// tieLex: the token stream of the real lexer (type, text, line, column of every token) against the model's
+// `lexResult`, the object the lexer theorems speak about. The text of error tokens is wording, not compared.
+func (c *Ctx) tieLex(inputs [][]byte) {
+	reqs := make([]string, len(inputs))
+	for i, in := range inputs {
+		reqs[i] = "L " + hx(in)
+	}
+	implCh := make(chan []proc.Reply, 1)
+	go func() { implCh <- c.Wrk.Map(reqs, 4*time.Second) }()
+	model := c.Drv.Map(reqs, 20*time.Second)
+	impl := <-implCh
+	canon := func(r proc.Reply) string {
+		if r.Err != nil {
+			return "no-reply"
+		}
+		f := strings.Fields(r.Line)
+		for i, t := range f {
+			if strings.HasPrefix(t, "Error:") {
+				p := strings.Split(t, ":")
+				if len(p) == 4 {
+					f[i] = "Error:_:" + p[2] + ":" + p[3]
+				}
+			}
+		}
+		return strings.Join(f, " ")
+	}
+	for i, in := range inputs {
+		c.Rep.TieCases++
+		c.dist("lex-streams")
+		a, b := canon(impl[i]), canon(model[i])
+		if a != b {
+			c.mismatch("tokens", string(in), clip(firstDiffTok(a, b), 200), "", true)
+		}
+	}
+}
+
+func firstDiffTok(a, b string) string {
+	fa, fb := strings.Fields(a), strings.Fields(b)
+	for i := 0; i < len(fa) || i < len(fb); i++ {
+		x, y := "(none)", "(none)"
+		if i < len(fa) {
+			x = fa[i]
+		}
+		if i < len(fb) {
+			y = fb[i]
+		}
+		if x != y {
+			return fmt.Sprintf("token %d: implementation %s, model %s", i, x, y)
+		}
+	}
+	return "equal"
+}
